@@ -73,7 +73,8 @@ prop("C13", module="MW.Props.C13", title="treasury swaps and spending", skip_sta
 prop("C05", module="MW.Props.C05", title="pro-rata, at-most-once withdrawal",
      variants=["liquid_unstake", "withdraw", "submit_batch", "receive_unstaked_tokens"],
      state_keys=["requests", "batches"], pure=["multiply_ratio"],
-     weights={"unstake": 22, "withdraw": 22, "submit": 10, "deliver": 12, "stake": 14, "advance": 10})
+     weights={"unstake": 22, "withdraw": 22, "submit": 10, "deliver": 12, "stake": 14, "advance": 10},
+     profile={"legacy": 0.03})
 
 prop("C06", module="MW.Props.C06", title="batch lifecycle and timing",
      variants=["submit_batch", "receive_unstaked_tokens", "liquid_unstake", "instantiate"],
@@ -106,7 +107,7 @@ prop("C14", module="MW.Props.C14", title="well-formed configuration, sectional u
 prop("C17", module="MW.Props.C17", title="complete pagination, consistent per-user index",
      variants=[], state_keys=["batches", "requests", "ibc_queue", "reply_queue", "pending"],
      weights={"unstake": 22, "withdraw": 16, "submit": 12, "deliver": 10, "stake": 14, "ack": 8, "timeout": 4},
-     profile={"queries": 0.5},
+     profile={"queries": 0.5, "legacy": 0.02},
      assumptions=["the model answers UnstakeRequests by filtering one request list (the specification); the upkeep of the real secondary index is covered differentially"])
 
 prop("C09", module="MW.Props.C09", title="ibc-hooks sender derivation",
@@ -160,6 +161,6 @@ prop("C18", module="MW.Props.C18", title="version-gated, preserving migrations",
 prop("C16", module="MW.Props.C16", title="entry points never panic", extra=["treasury", "migration"],
      state_keys=[], weights={"stake": 16, "unstake": 10, "submit": 8, "deliver": 7, "rewards": 8, "withdraw": 8, "ack": 8,
                              "timeout": 3, "recover": 6, "update_config": 6, "resume": 4, "garbage": 4, "unauthorized": 6},
-     profile={"queries": 0.2},
+     profile={"queries": 0.2, "legacy": 0.02},
      assumptions=["envelope of the property: amounts ≤ 10^27, totals ≤ 10^30, rates within [10^-3, 10^3] before and after the call, block time < 2^63 ns, sender a valid address under the configured prefix, counters below 2^64",
                   "every harness call runs under catch_unwind; allocation failure, stack depth and gas are outside the model"])
